@@ -399,6 +399,8 @@ func init() {
 	reg("(*math/big.Int).Bytes", "big-endian magnitude bytes, minimal length (uninterpreted bigbytes(|v|))", func(x *Exec, st *State, ci *callInfo, a []Val) Val {
 		v := x.bigOf(st, a[0], ci)
 		x.e.declareFun("bigbytes", "(Int) String")
+		x.e.declareFun("bigdec", "(String) Int")
+		x.e.addAxiom("(assert (forall ((n Int)) (! (=> (>= n 0) (= (bigdec (bigbytes n)) n)) :pattern ((bigbytes n)))))")
 		r := app(SString, "bigbytes", app(SInt, "abs_", v))
 		r.Segs = []Seg{{Kind: "bigbytes", S: r.S, Arg: v.S}}
 		return r
@@ -505,6 +507,10 @@ func init() {
 	})
 	reg("crypto/sha256.Sum256", "sha256 as an uninterpreted 32-byte function", func(x *Exec, st *State, ci *callInfo, a []Val) Val {
 		x.e.declareFun("uf_sha256", "(String) String")
+		if len(st.Frames) == 1 {
+			x.shaArgs = append(x.shaArgs, tt(a[0]))
+			x.shaPCs = append(x.shaPCs, append([]T(nil), st.PC...))
+		}
 		r := app(SString, "uf_sha256", tt(a[0]))
 		st.assume(Eq(StrLen(r), IntLit(32)), "sha256 length")
 		return r
